@@ -1,5 +1,5 @@
 (* C03 — Locale parsing accepts all well-formed locale ids and never silently drops input. *)
-From UL Require Import Bytes Subtags LangId Ext Grammar LangIdSpec LocaleSpec LangIdProofs ExtProofs LocaleSpecProofs SplitProofs StringLevel LocaleGrammar LocaleGrammarProofs LocaleGrammarInv RejectClasses.
+From UL Require Import Bytes Subtags LangId Ext Grammar LangIdSpec LocaleSpec LangIdProofs ExtProofs LocaleSpecProofs SplitProofs StringLevel LocaleGrammar LocaleGrammarProofs LocaleGrammarInv RejectClasses HoldsExactly.
 From Coq Require Import String.
 
 (* Ok or Err for every byte string: no panic on unsupported / malformed singletons (D1) *)
@@ -109,6 +109,14 @@ Proof. exact WFLocale_must_accept. Qed.
    well-formed identifiers of the grammar, no more (the oracle cannot demand acceptance of an ill-formed input) *)
 Theorem C03_must_accept_is_the_grammar : forall toks v, spec_locale_zone toks = MustAccept v <-> WFLocale toks v.
 Proof. exact must_accept_iff_WFLocale. Qed.
+(* "the parsed value holds EXACTLY the input's subtags in normalised form": every subtag of a well-formed input
+   reappears, up to letter case, among the subtags the value prints - except keyword / tfield values named `true`,
+   which the canonical form omits - and the value prints no subtag that does not come from the input
+   (`covers A B`: every token of A occurs in B up to case; `covers_but_true`: ... or is the word `true`) *)
+Theorem C03_value_holds_every_subtag : forall toks v, WFLocale toks v -> covers_but_true toks (loc_tokens v).
+Proof. exact value_holds_every_subtag. Qed.
+Theorem C03_value_holds_nothing_else : forall toks v, WFLocale toks v -> covers (loc_tokens v) toks.
+Proof. exact value_holds_nothing_else. Qed.
 (* non-vacuity: an identifier with all three extensions is a member of the relation *)
 Example C03_grammar_witness : exists v,
   WFLocale [bs "eN"; bs "us"; bs "U"; bs "attr"; bs "ca"; bs "buddhist"; bs "t"; bs "de"; bs "h0"; bs "hybrid"; bs "x"; bs "foo"]%string v
@@ -129,6 +137,8 @@ Proof.
 Qed.
 Print Assumptions C03_accepts_every_wellformed.
 Print Assumptions C03_grammar_in_must_accept.
+Print Assumptions C03_value_holds_every_subtag.
+Print Assumptions C03_value_holds_nothing_else.
 Print Assumptions C03_rejects_overlong.
 Print Assumptions C03_rejects_malformed.
 Print Assumptions C03_zone_tokens_usable.
